@@ -8,11 +8,12 @@ Proof. unfold submit. destruct (pending s); discriminate. Qed.
 
 Lemma step_conv s o : Conv s -> Conv (step true s o).
 Proof.
-  intros C. destruct o as [ts h c|ts| |tp|h|k]; unfold Conv in *; simpl.
+  intros C. destruct o as [ts h c|ts| |tp| |h|k]; unfold Conv in *; simpl.
   - intros E. exfalso. eapply submit_nonempty; exact E.
   - exact C.
   - exact C.
   - intros E. exfalso. eapply submit_nonempty; exact E.
+  - exact C.
   - destruct (has_handle h (custom s)); [|exact C]. simpl. intros E. exfalso. eapply submit_nonempty; exact E.
   - destruct (k <? 2)%nat; [|exact C]. destruct (nth_error (pending s) k); [|exact C]. simpl. intros _. reflexivity.
 Qed.
@@ -33,11 +34,12 @@ Definition last_update_of (ops : list op) : option (nat * cfg) :=
 Lemma step_hash s o last : HashOf s last ->
   HashOf (step true s o) (match o with PollUpdate _ h c => Some (h, c) | _ => last end).
 Proof.
-  intros H. destruct o as [ts h c|ts| |tp|h|k]; simpl.
+  intros H. destruct o as [ts h c|ts| |tp| |h|k]; simpl.
   - split; reflexivity.
   - destruct last as [[h' c']|]; exact H.
   - exact H.
   - destruct last as [[h' c']|]; exact H.
+  - exact H.
   - destruct (has_handle h (custom s)); destruct last as [[h' c']|]; exact H.
   - destruct (k <? 2)%nat; [destruct (nth_error (pending s) k)|]; destruct last as [[h' c']|]; exact H.
 Qed.
@@ -92,7 +94,7 @@ Qed.
 
 Lemma step_hinv s o : HInv s -> HInv (step true s o).
 Proof.
-  intros [N F]. destruct o as [ts h c|ts| |tp|h|k]; simpl; try (constructor; assumption).
+  intros [N F]. destruct o as [ts h c|ts| |tp| |h|k]; simpl; try (constructor; assumption).
   - constructor; unfold handles; simpl.
     + rewrite map_app. simpl. apply NoDup_snoc; [exact N|]. intros I. apply F in I. lia.
     + intros h I. rewrite map_app in I. simpl in I. apply in_app_or in I as [I|[<-|[]]]; [apply F in I; lia|lia].
